@@ -70,6 +70,8 @@ pub trait DynSk {
     fn to_bytes(&self) -> Vec<u8>;
     fn public(&self) -> Box<dyn DynPk>;
     fn dup(&self) -> Box<dyn DynSk>;
+    /// the deprecated internal interface: signs the already formatted message M' as is
+    fn sign_internal(&self, m_prime: &[u8], rnd: [u8; 32]) -> Result<Vec<u8>, &'static str>;
 }
 
 pub type KeyPair = (Box<dyn DynPk>, Box<dyn DynSk>);
@@ -268,6 +270,10 @@ macro_rules! set_impl {
                 fn to_bytes(&self) -> Vec<u8> { self.0.clone().into_bytes().to_vec() }
                 fn public(&self) -> Box<dyn DynPk> { Box::new(Pk(self.0.get_public_key())) }
                 fn dup(&self) -> Box<dyn DynSk> { Box::new(Sk(self.0.clone())) }
+                #[allow(deprecated)]
+                fn sign_internal(&self, m_prime: &[u8], rnd: [u8; 32]) -> Result<Vec<u8>, &'static str> {
+                    m::_internal_sign(&self.0, m_prime, &[], rnd).map(|s| s.to_vec())
+                }
             }
 
             fn boxed(p: (PublicKey, PrivateKey)) -> KeyPair { (Box::new(Pk(p.0)), Box::new(Sk(p.1))) }
